@@ -46,6 +46,8 @@ pub enum ExecStep {
     CreateNow,
     /// create an entity with one component inside the closure
     CreateNowWith(u8, u32),
+    /// build a second, unrelated world inside the closure, queue a lazy action on it and maintain it
+    OtherWorld,
     DeleteNow(Sel),
     DeleteAtomic(Sel),
     InsertNow(u8, Sel, u32),
@@ -80,6 +82,8 @@ pub enum Op {
     LazyInsertAll(u8, Vec<(Sel, u32)>),
     LazyRemove(u8, Sel),
     LazyExec(Vec<ExecStep>),
+    /// deserialise data that mentions `n` unknown markers (creates `n` entities through the shared entities resource)
+    Deserialize(u8),
 }
 
 #[derive(Clone, Debug, Serialize, Deserialize, Hash, PartialEq, Eq)]
@@ -112,6 +116,7 @@ enum RStep {
     CreateAtomic,
     CreateNow,
     CreateNowWith(usize, u32),
+    OtherWorld,
     DeleteNow(Entity),
     DeleteAtomic(Entity),
     InsertNow(usize, Entity, u32),
@@ -142,6 +147,7 @@ enum LogEntry {
     Observed(Vec<(bool, Vec<bool>)>, Vec<Vec<u32>>),
     Created(Entity),
     CreatedWith(Entity, Ident),
+    OtherWorldRan(bool, bool),
     DelResult(bool),
     Inserted { ok: bool, old: Option<Ident>, new: Ident },
     QueuedValue(Ident),
@@ -179,7 +185,10 @@ pub struct Facts {
     pub restrict_other_stale: u32,
 }
 
+pub struct HistTag;
+
 pub struct Interp {
+    next_marker: u64,
     world: Option<World>,
     kinds: Arc<Vec<Kind>>,
     handles: Vec<Handle>,
@@ -537,6 +546,17 @@ fn run_body(world: &mut World, kinds: &Arc<Vec<Kind>>, body: RExec, log: &Log) {
                 let e = b.build();
                 log.lock().unwrap().push(LogEntry::CreatedWith(e, id));
             }
+            RStep::OtherWorld => {
+                let mut w2 = World::new();
+                let ran = Arc::new(Mutex::new(0u32));
+                let r2 = ran.clone();
+                let e2 = w2.entities().create();
+                w2.read_resource::<LazyUpdate>().exec(move |_| *r2.lock().unwrap() += 1);
+                w2.maintain();
+                let merged = w2.is_alive(e2);
+                let n = *ran.lock().unwrap();
+                log.lock().unwrap().push(LogEntry::OtherWorldRan(n == 1, merged));
+            }
             RStep::DeleteNow(h) => {
                 let r = world.delete_entity(h).is_ok();
                 log.lock().unwrap().push(LogEntry::DelResult(r));
@@ -577,6 +597,8 @@ impl Interp {
             kinds.push(*k);
             with_kind!(*k, register_path(&mut world, *path));
         }
+        world.register::<specs::saveload::SimpleMarker<HistTag>>();
+        world.insert(specs::saveload::SimpleMarkerAllocator::<HistTag>::new());
         let n = kinds.len();
         let readers = kinds
             .iter()
@@ -585,6 +607,7 @@ impl Interp {
         Interp {
             readers,
             expect_destroyed: vec![],
+            next_marker: 0,
             world: Some(world),
             kinds: Arc::new(kinds),
             handles: vec![],
@@ -1276,6 +1299,40 @@ impl Interp {
                 self.queue.push(QItem::Remove { slot, e });
                 self.note(|| format!("lazy_remove {} {:?}", slot, e));
             }
+            Op::Deserialize(n) => {
+                use specs::saveload::{DeserializeComponents, Marker, SimpleMarker, SimpleMarkerAllocator};
+                let n = (*n % 4) as u64;
+                let ids: Vec<u64> = (0..n).map(|k| self.next_marker + k).collect();
+                self.next_marker += n;
+                let data = serde_json::Value::Array(ids.iter().map(|i| serde_json::json!({"marker": [i], "components": null})).collect()).to_string();
+                let created: Vec<Entity> = {
+                    let world = self.w();
+                    let ents = world.entities();
+                    let mut markers = world.write_storage::<SimpleMarker<HistTag>>();
+                    let mut alloc = world.write_resource::<SimpleMarkerAllocator<HistTag>>();
+                    let mut de = serde_json::Deserializer::from_str(&data);
+                    let r = DeserializeComponents::<specs::error::Error, SimpleMarker<HistTag>>::deserialize(&mut (), &ents, &mut markers, &mut *alloc, &mut de);
+                    if let Err(e) = r {
+                        return Err(v("C14", "deserialize-error", format!("deserialising {} fresh markers failed: {}", n, e)));
+                    }
+                    let mut by_id: BTreeMap<u64, Entity> = BTreeMap::new();
+                    for (e, m) in (&*ents, &markers).join() {
+                        by_id.insert(m.id(), e);
+                    }
+                    let mut out = vec![];
+                    for i in &ids {
+                        match by_id.get(i) {
+                            Some(e) => out.push(*e),
+                            None => return Err(v("C15", "load-lost-record", format!("no entity carries the freshly loaded marker id {}", i))),
+                        }
+                    }
+                    out
+                };
+                for e in &created {
+                    self.on_created(*e, false, false, "deserialisation (MarkerAllocator::retrieve_entity)")?;
+                }
+                self.note(|| format!("deserialize {:?}", created));
+            }
             Op::LazyExec(steps) => {
                 let body = self.resolve_exec(steps, 0);
                 let k = self.kinds.clone();
@@ -1303,6 +1360,7 @@ impl Interp {
                 ExecStep::CreateAtomic => Some(RStep::CreateAtomic),
                 ExecStep::CreateNow => Some(RStep::CreateNow),
                 ExecStep::CreateNowWith(s, p) => self.slot(*s).map(|a| RStep::CreateNowWith(a, *p)),
+                ExecStep::OtherWorld => Some(RStep::OtherWorld),
                 ExecStep::DeleteNow(sel) => self.resolve(*sel).map(|h| RStep::DeleteNow(self.handles[h].e)),
                 ExecStep::DeleteAtomic(sel) => self.resolve(*sel).map(|h| RStep::DeleteAtomic(self.handles[h].e)),
                 ExecStep::InsertNow(s, sel, p) => match (self.slot(*s), self.resolve(*sel)) {
@@ -1467,6 +1525,12 @@ impl Interp {
                                     }
                                     other => return Err(v("C09", "log-shape", format!("closure #{}: expected a creation record, got {:?}", body.id, other))),
                                 }
+                                cur += 1;
+                            }
+                            RStep::OtherWorld => {
+                                let got = log.get(cur).cloned();
+                                ensure!("C09", "other-world-maintain", got == Some(LogEntry::OtherWorldRan(true, true)),
+                                    "closure #{}: an unrelated world created, filled and maintained inside the closure reports (queued action ran exactly once, deferred entity merged) = {:?}; what happens in one world must not depend on another world being in the middle of its maintain", body.id, got);
                                 cur += 1;
                             }
                             RStep::DeleteNow(h) => {
@@ -1705,6 +1769,7 @@ fn exec_steps(depth: u32) -> BoxedStrategy<Vec<ExecStep>> {
         1 => Just(ExecStep::CreateAtomic),
         1 => Just(ExecStep::CreateNow),
         2 => (0u8..8, 1u32..1000).prop_map(|(s, p)| ExecStep::CreateNowWith(s, p)),
+        1 => Just(ExecStep::OtherWorld),
         1 => sel().prop_map(ExecStep::DeleteNow),
         1 => sel().prop_map(ExecStep::DeleteAtomic),
         2 => (0u8..8, sel(), 1u32..1000).prop_map(|(s, h, p)| ExecStep::InsertNow(s, h, p)),
@@ -1755,6 +1820,7 @@ pub fn op_strategy(p: Profile) -> BoxedStrategy<Op> {
         1 => (0u8..6).prop_map(Op::CreateIterAtomic),
         2 => (comps(), prop::bool::weighted(0.7)).prop_map(|(c, b)| Op::BuildEntity { comps: c, built: b }),
         2 => comps().prop_map(|c| Op::LazyCreate { comps: c }),
+        1 => (0u8..4).prop_map(Op::Deserialize),
     ];
     let delete = prop_oneof![
         5 => sel().prop_map(Op::DeleteNow),
